@@ -148,7 +148,8 @@ def _mk(nn, nd):
     if k == 'pad1d':
         return nn.ConstantPad1d((nd['left'], 0), 0)
     if k == 'conv1d':
-        return nn.Conv1d(nd['cin'], nd['cout'], nd['ks'], stride=nd['stride'], dilation=nd['dil'], groups=nd['groups'], bias=nd['bias'])
+        return nn.Conv1d(nd['cin'], nd['cout'], nd['ks'], stride=nd['stride'], dilation=nd['dil'], groups=nd['groups'], bias=nd['bias'],
+                         padding=nd.get('padding', 0))
     if k == 'conv2d':
         return nn.Conv2d(nd['cin'], nd['cout'], tuple(nd['ks']), stride=nd['stride'], dilation=nd['dil'], groups=nd['groups'], bias=nd['bias'], padding=nd['padding'])
     if k == 'linear':
@@ -244,7 +245,9 @@ class G:
             if left > 0 or rng.random() < 0.5:
                 cur = self.add(k='pad1d', src=cur, left=left)
             co = c if dw else (cout or rng.randint(1, self.o.get('cmax', 6)))
-            return self.add(k='conv1d', src=cur, cin=c, cout=co, ks=ks, dil=dil, stride=stride, groups=c if dw else 1, bias=rng.random() < 0.7)
+            # padding given as the string 'valid' (same as 0) for some layers; derived from values already drawn
+            padding = 'valid' if (stride == 1 and (ks * 7 + co * 3 + dil) % 4 == 0) else 0
+            return self.add(k='conv1d', src=cur, cin=c, cout=co, ks=ks, dil=dil, stride=stride, groups=c if dw else 1, bias=rng.random() < 0.7, padding=padding)
         kk = k or rng.choice(self.o.get('k2d', [1, 3, 3, 5]))
         ks = [kk, kk] if rng.random() < 0.8 else [kk, rng.choice([1, 3])]
         stride = 2 if (stride_ok and rng.random() < self.o.get('p_stride', 0.15) and min(self.sh(cur)[1:]) >= 4) else 1
@@ -417,3 +420,29 @@ def has_add_of_cat(spec):
                 if nodes[j]['k'] == 'cat' and nodes[j]['dim'] == 1:
                     return True
     return False
+
+
+def add_output_head(spec, rng):
+    """turn the network into a multi-output one: a second head `act(conv(h))` on an intermediate tensor h
+    (the convolution is output-connected through a features-propagating op).  Returns a new spec."""
+    spec = copy.deepcopy(spec)
+    nodes = spec['nodes']
+    sh = shapes(spec)
+    cands = [i for i, nd in enumerate(nodes) if len(sh[i]) >= 2 and nd['k'] not in ('in', 'pad1d') and i not in spec['out']]
+    if not cands:
+        return spec
+    i = rng.choice(cands)
+    c = sh[i][0]
+    co = rng.randint(2, 5)
+    if spec['dim'] == 1:
+        ks = rng.choice([1, 3, 5])
+        nodes.append({'k': 'pad1d', 'src': i, 'left': ks - 1})
+        nodes.append({'k': 'conv1d', 'src': len(nodes) - 1, 'cin': c, 'cout': co, 'ks': ks, 'dil': 1, 'stride': 1, 'groups': 1, 'bias': True, 'padding': 0})
+    else:
+        nodes.append({'k': 'conv2d', 'src': i, 'cin': c, 'cout': co, 'ks': [3, 3], 'dil': 1, 'stride': 1, 'groups': 1, 'bias': True, 'padding': 'same'})
+    r = rng.random()
+    if r < 0.75:
+        nodes.append({'k': rng.choice(['relu', 'relu_f', 'relu6']), 'src': len(nodes) - 1})
+    spec['out'] = list(spec['out']) + [len(nodes) - 1]
+    spec['productions'] = list(spec.get('productions', [])) + ['second-output-head']
+    return spec
